@@ -185,8 +185,30 @@ def run_case(rep, case, sample=False):
     iw = case.get("init_window")
     wins = ([iw] if iw else []) + [op for op in case["ops"] if op != "global"]
     if not all(nonempty(case, w) for w in wins):
-        rep.skip("windows selecting no time sample or no node are not evaluated (GeoGrid raises ValueError on an "
-                 "empty axis; the property does not speak about empty selections)")
+        # a window that contains no time sample or no node: refused (GeoGrid raises on an empty axis), or answered with an
+        # empty view - never with samples / nodes outside the requested bounds
+        bad = next(w for w in wins if not nonempty(case, w))
+        if not iw or nonempty(case, iw):
+            try:
+                with quiet():
+                    X, obj = build(dict(case, ops=[]))
+                    try:
+                        obj.set_window(dict(bad))
+                        raised = False
+                    except Exception:                               # noqa: BLE001
+                        raised = True
+                    if not raised:
+                        tm, sm = spec.window_masks(times, lats, lons, bad)
+                        shp = np.shape(obj.observable())
+                        rep.case()
+                        if tuple(shp) != (sum(tm), sum(sm)):
+                            rep.fail("set_window/window-without-samples-refused-or-empty", dict(case, ops=[bad]),
+                                     "observable of shape %r for a window that contains %d time samples and %d nodes"
+                                     % (shp, sum(tm), sum(sm)))
+            except Exception as e:                                  # noqa: BLE001
+                rep.fail("exception/" + type(e).__name__, case, traceback.format_exc()[-500:])
+        rep.skip("windows selecting no time sample or no node: only 'refused or empty' is asserted (GeoGrid raises "
+                 "ValueError on an empty axis; the property does not speak about empty selections)")
         return False
     nontrivial = False
     try:
@@ -248,6 +270,15 @@ def gen_exhaustive_data(rng, tier):
                 if tier == "quick" and k % 2 != 0:
                     continue
                 yield dict(D0, cls="Data", X=X, dtype="float64", ops=[W(t0, t1, a0, a1, o0, o1)])
+
+
+def gen_beyond(rng, tier):
+    """non-degenerate windows that lie entirely beyond the data along one axis"""
+    X = d0_values(rng)
+    for w in (W(9., 12., 0., 0., 0., 0.), W(-5., -2., 0., 0., 0., 0.), W(0., 0., 20., 40., 0., 0.), W(0., 0., -60., -30., 0., 0.),
+              W(0., 0., 0., 0., 171., 179.), W(0., 0., 0., 0., -10., 2.), W(2.5, 3.5, -20., 10., 5., 170.)):
+        yield dict(D0, cls="Data", X=X, dtype="float64", ops=[w])
+        yield dict(D0, cls="ClimateData", X=X, dtype="float64", ops=[w], cycle=2, anomalies=False)
 
 
 SPATIAL_FEW = [(0., 0., 0., 0.), (0., 10., 5., 30.), (-20., 10., 5., 5.), (-25., 5., 0., 175.), (10., 10., 20., 100.),
@@ -404,7 +435,8 @@ def main():
         rep.finish()
         return
     budget = 50 if args.tier == "quick" else 520
-    gens = [gen_months(rng, args.tier), gen_sequences(rng, args.tier), gen_exhaustive_climate(rng, args.tier),
+    gens = [gen_beyond(np.random.RandomState(args.seed + 5), args.tier),
+            gen_months(rng, args.tier), gen_sequences(rng, args.tier), gen_exhaustive_climate(rng, args.tier),
             gen_exhaustive_data(rng, args.tier)]
     nrand = 3000 if args.tier == "quick" else 80000
     for i in range(nrand):
